@@ -32,7 +32,9 @@ func header(in string) bool {
 	p, e := in[:len(in)-1], in[len(in)-1]
 	switch e {
 	case '.', ':', ')':
-		if listMarker[p] {
+		// Normalize tokenizes without lower-casing, Match with; compare
+		// case-insensitively so both drop the same list markers.
+		if listMarker[strings.ToLower(p)] {
 			if e != ')' {
 				return true
 			}
